@@ -56,6 +56,11 @@ func (check) Plan(tier string, seed int64) []harness.Batch {
 		s, _ := json.Marshal(spec{Kind: "queries", N: nq})
 		bs = append(bs, harness.Batch{Name: fmt.Sprintf("queries-%d", i), Seed: seed*1000033 + int64(i), Spec: s, TimeoutS: 3000, CaseTimeoutS: 150})
 	}
+	for i := 0; i < 2; i++ {
+		// size queries (CSI 14 t / CSI 18 t) are only used with this switch
+		s, _ := json.Marshal(spec{Kind: "size-queries", N: nq / 5})
+		bs = append(bs, harness.Batch{Name: fmt.Sprintf("size-queries-%d", i), Seed: seed*1000039 + int64(i), Spec: s, TimeoutS: 3000, CaseTimeoutS: 150, Env: []string{"VAXIS_FORCE_XTWINOPS=1"}})
+	}
 	if tier == "thorough" {
 		for i := 0; i < 4; i++ {
 			s, _ := json.Marshal(spec{Kind: "streams", N: 300})
@@ -955,7 +960,92 @@ func (c check) Run(w *harness.W, b harness.Batch) {
 		for i := 0; i < s.N; i++ {
 			runQuery(w, gen.New(r.Int63()))
 		}
+	case "size-queries":
+		for i := 0; i < s.N; i++ {
+			if !runSizeQuery(w, gen.New(r.Int63())) {
+				break
+			}
+		}
 	}
+}
+
+// sizeCase: the terminal reports its size only when asked (CSI 14 t, CSI
+// 18 t; no in-band reports). Every size change the application is told about
+// (Resize) must be announced with the size the terminal reports, whether the
+// report is parsed after the request has been written ("in-time") or while
+// the caller is still inside that write ("early").
+type sizeCase struct {
+	Caps   uint32   `json:"caps_mask"`
+	Timing string   `json:"timing"`
+	Sizes  [][2]int `json:"sizes"`
+}
+
+func runSizeQuery(w *harness.W, r gen.R) bool {
+	// text-area reports on, in-band resize off
+	sc := sizeCase{Caps: (uint32(r.Int63()) & 0x1ffff) | 1<<7, Timing: []string{"in-time", "early"}[r.Intn(2)]}
+	sc.Caps &^= 1 << 3
+	for i, n := 0, r.Range(1, 4); i < n; i++ {
+		sc.Sizes = append(sc.Sizes, [2]int{r.Range(10, 100), r.Range(3, 40)})
+	}
+	cj, _ := json.Marshal(sc)
+	w.Begin(string(cj))
+	defer w.End()
+	linger := func(p []byte) time.Duration {
+		if sc.Timing == "early" && (strings.Contains(string(p), "\x1b[14t") || strings.Contains(string(p), "\x1b[18t")) {
+			return 15 * time.Millisecond
+		}
+		return 0
+	}
+	sess, err := vxh.Start(80, 24, refterm.CapsFromMask(sc.Caps), vaxis.Options{}, func(t *refterm.Terminal, c *memcon.Console) {
+		t.CellW, t.CellH = 8, 16
+		c.PostWriteDelay = linger
+	})
+	if err != nil {
+		if strings.Contains(err.Error(), "deadline") {
+			w.Violation("query:size:"+sc.Timing+":new-fails-although-the-terminal-answered", "New returned an error although the terminal answered the size request: "+err.Error(), sc, err.Error(), "a Vaxis with the reported size")
+			return false
+		}
+		w.Inconclusive("start-failed")
+		return true
+	}
+	defer sess.Close()
+	if _, ok := sess.Sync(); !ok {
+		w.Inconclusive("startup-sync-timeout")
+		return true
+	}
+	w.Case("size|" + string(cj))
+	for i, sz := range sc.Sizes {
+		sess.Con.SetSize(sz[0], sz[1])
+		sess.Vx.Resize()
+		announced := false
+		deadline := time.After(10 * time.Second)
+	wait:
+		for !announced {
+			select {
+			case ev := <-sess.Vx.Events():
+				switch e := ev.(type) {
+				case vaxis.Redraw:
+					sess.Vx.Render()
+				case vaxis.Resize:
+					if e.Cols == sz[0] && e.Rows == sz[1] {
+						announced = true
+					} else {
+						// an older size: ask again
+						sess.Vx.Resize()
+					}
+				}
+			case <-deadline:
+				break wait
+			}
+		}
+		w.Count("size_requests", 1)
+		if !announced {
+			w.Violation("query:size:"+sc.Timing+":new-size-never-announced", fmt.Sprintf("size change %d to %dx%d: the terminal answers the size request (%s), but no Resize event with that size arrived within 10 s of Resize()+Render()", i, sz[0], sz[1], sc.Timing), sc, "no Resize event", fmt.Sprintf("Resize{Cols:%d Rows:%d}", sz[0], sz[1]))
+			return false
+		}
+	}
+	w.Distinct("query_timing", "size/"+sc.Timing)
+	return true
 }
 
 func (check) Finalize(tier string, m *harness.Merged) string {
